@@ -969,6 +969,10 @@ func factsGenOrder(repo string) (string, int) {
 // globalWrites lists, for the Go files given (one package), every statement outside `init` functions and
 // outside package-level initialisers that writes through a package-level variable: assignment to it / to an
 // element, field or dereference of it, ++/--, taking its address, delete / clear / copy into it.
+// lastGlobalMethodCalls collects, as a side result of globalWrites, every `global.Method(…)` /
+// `global[i].Method(…)` call outside init (a method with a pointer receiver may write through the variable)
+var lastGlobalMethodCalls = map[string]bool{}
+
 func globalWrites(fset *token.FileSet, files []*ast.File) []string {
 	pkgVars := map[string]bool{}
 	topSpec := map[*ast.ValueSpec]bool{}
@@ -1065,6 +1069,11 @@ func globalWrites(fset *token.FileSet, files []*ast.File) []string {
 						}
 					}
 				case *ast.CallExpr:
+					if sel, ok := x.Fun.(*ast.SelectorExpr); ok {
+						if id := root(sel.X); id != nil && isGlobal(id) {
+							lastGlobalMethodCalls[id.Name+"."+sel.Sel.Name] = true
+						}
+					}
 					if fnid, ok := x.Fun.(*ast.Ident); ok && len(x.Args) > 0 {
 						switch fnid.Name {
 						case "delete", "clear", "copy":
@@ -1163,7 +1172,13 @@ func factsConc(repo string) (string, int) {
 		}
 	}
 	gfset, gfiles := parseGenerated(fs.files)
+	lastGlobalMethodCalls = map[string]bool{}
 	genW := globalWrites(gfset, gfiles)
+	var genCalls []string
+	for k := range lastGlobalMethodCalls {
+		genCalls = append(genCalls, k)
+	}
+	sort.Strings(genCalls)
 	// which package-level variables does the generated package have at all (so that an empty list is not vacuous)
 	var genVars []string
 	for _, f := range gfiles {
@@ -1182,17 +1197,25 @@ func factsConc(repo string) (string, int) {
 	sort.Strings(genVars)
 	var rtW []string
 	rtPkgs := []string{"uri", "conv", "json", "validate", "ogenregex", "ogenerrors", "http", "middleware", "otelogen", "internal/bitset"}
+	var rtCalls []string
 	for _, rp := range rtPkgs {
 		rfset, rfiles := parseDirNoTests(filepath.Join(repo, rp))
+		lastGlobalMethodCalls = map[string]bool{}
 		for _, w := range globalWrites(rfset, rfiles) {
 			rtW = append(rtW, rp+"/"+w)
 		}
+		for k := range lastGlobalMethodCalls {
+			rtCalls = append(rtCalls, rp+"/"+k)
+		}
 	}
+	sort.Strings(rtCalls)
 	var sb strings.Builder
 	sb.WriteString("/-! GENERATED by harness/cmd/extract (go/ast over the package the linked generator writes for a probe document, all features, and over the runtime packages of the working tree) — do not edit. -/\nnamespace Facts.Conc\n")
 	fmt.Fprintf(&sb, "/-- package-level variables of the generated package -/\ndef generatedGlobals : List String := %s\n", leanList(genVars))
 	fmt.Fprintf(&sb, "/-- statements of the generated package, outside init, that write through a package-level variable -/\ndef generatedGlobalWrites : List String := %s\n", leanList(genW))
 	fmt.Fprintf(&sb, "/-- the same for the runtime packages generated code calls (%s) -/\ndef runtimeGlobalWrites : List String := %s\n", strings.Join(rtPkgs, ", "), leanList(rtW))
+	fmt.Fprintf(&sb, "/-- method calls on (elements of) package-level variables outside init: generated package -/\ndef generatedGlobalMethodCalls : List String := %s\n", leanList(genCalls))
+	fmt.Fprintf(&sb, "/-- … and runtime packages -/\ndef runtimeGlobalMethodCalls : List String := %s\n", leanList(rtCalls))
 	sb.WriteString("end Facts.Conc\n")
 	return sb.String(), len(genVars) + len(genW) + len(rtW) + 1
 }
